@@ -231,6 +231,9 @@ def check(repo: Repo, rep: Report) -> None:
     except Undecided as ex:
         rep.undecide("ALG-1", str(ex))
         return
+    except (Raised, IndexOutOfRange) as ex:
+        # an operation on a well-formed frame (construction, dual, iteration, graph inference) raised inside the library
+        res["ALG-4"] = res["ALG-4"] or f"an operation on a well-formed frame raises {ex} (frames of height or width 0 and their duals included)"
     where = {"ALG-1": "BoolGridFrame.__getitem__", "ALG-2": "BoolGridFrame.cell_neighbors", "ALG-3": "BoolGridFrame.vertex_neighbors",
              "ALG-4": "BoolGridFrame.dual", "ALG-5": "_from_grid_frame"}
     for k, msg in res.items():
